@@ -68,7 +68,7 @@ VARIABLES slot,      \* side -> slot index -> program (named by the type it was 
           hashDone,  \* the shared query's hash has been computed
           results,   \* set of [req, got] of finished top-level calls
           sched,     \* history: procs in the order they pass hook points
-          plan0      \* history: the initial plan
+          plan0      \* history: the initial plan and whether the query type's program existed already
 vars == <<slot, cmap, stack, plan, rw, hashDone, results, sched, plan0>>
 view == <<slot, cmap, stack, plan, rw, hashDone, results>>
 
@@ -82,17 +82,19 @@ GoodCall(c) == c.q => (c.side = "enc" /\ QType # "")
 PlanSeqs == UNION { [1..n -> { c \in Calls : GoodCall(c) }] : n \in 1..MaxCalls }
 
 Init ==
-  /\ slot = [s \in Sides |-> [i \in Slots |-> Nil]]
+  /\ \E qwarm \in (IF QType = "" THEN {FALSE} ELSE BOOLEAN) :
+       /\ slot = [s \in Sides |-> [i \in Slots |-> IF qwarm /\ i = QType /\ s = "enc" THEN QType ELSE Nil]]
+       /\ \E pl \in [Procs -> PlanSeqs] :
+            /\ plan = pl
+            /\ plan0 = [calls |-> pl, qwarm |-> qwarm]
   /\ cmap = [s \in Sides |-> {}]
-  /\ plan \in [Procs -> PlanSeqs]
-  /\ plan0 = plan
   /\ stack = [p \in Procs |-> <<>>]
   /\ rw = [s \in Sides |-> [readers |-> [p \in Procs |-> 0], writer |-> Nil, waiting |-> {}]]
   /\ hashDone = FALSE
   /\ results = {}
   /\ sched = <<>>
 
-Gate(p) == sched' = Append(sched, p)
+Gate(p, pt, t) == sched' = Append(sched, <<p, pt, t>>)
 
 (* ---- a goroutine starts its next call ---- *)
 Start(p) ==
@@ -106,7 +108,7 @@ Guard(p) ==
   /\ stack[p] # <<>> /\ Top(p).pc = "guard"
   /\ LET f == Top(p) IN
      stack' = SetTop(p, [f EXCEPT !.pc = IF f.t \in SlowTypes THEN "sload" ELSE IF Variant = "race" THEN "rlock" ELSE "read"])
-  /\ Gate(p)
+  /\ Gate(p, "lookup", Top(p).t)
   /\ UNCHANGED <<slot, cmap, plan, rw, hashDone, results, plan0>>
 
 (* ---- race build: RLock (blocks behind an active or a WAITING writer) ---- *)
@@ -136,14 +138,14 @@ Compile(p) ==
      THEN /\ slot' = [slot EXCEPT ![f.side][Idx(f.t)] = Half(f.t)]          \* the slot already points at the unfinished program
           /\ stack' = SetTop(p, [f EXCEPT !.prog = f.t, !.pc = "filter"])
      ELSE /\ slot' = slot
-          /\ stack' = SetTop(p, [f EXCEPT !.prog = f.t, !.pc = "filter"])
-  /\ Gate(p)
+          /\ stack' = SetTop(p, [f EXCEPT !.prog = f.t, !.pc = IF f.t \in SlowTypes THEN "spublish" ELSE "filter"])
+  /\ Gate(p, "miss", Top(p).t)
   /\ UNCHANGED <<cmap, plan, rw, hashDone, results, plan0>>
 
 (* ---- filter by field query: needs the hash, i.e. possibly a nested Marshal of the query ---- *)
 AfterFilter(f) ==
   IF f.hit THEN (IF Variant = "race" /\ "FilterUnderReadLock" \in Deviations /\ f.t \in FastTypes THEN "runlock" ELSE "return")
-  ELSE IF f.t \in SlowTypes THEN "spublish" ELSE "publish"
+  ELSE "publish"
 Filter(p) ==
   /\ stack[p] # <<>> /\ Top(p).pc = "filter"
   /\ LET f == Top(p) IN
@@ -173,7 +175,7 @@ Publish(p) ==
      ELSE /\ slot' = [slot EXCEPT ![f.side][Idx(f.t)] = f.prog]
           /\ stack' = SetTop(p, [f EXCEPT !.pc = "return"])
           /\ rw' = rw
-  /\ Gate(p)
+  /\ Gate(p, "publish", Top(p).t)
   /\ UNCHANGED <<cmap, plan, hashDone, results, plan0>>
 WLock(p) ==
   /\ stack[p] # <<>> /\ Top(p).pc = "wlock"
@@ -202,8 +204,8 @@ SPublish(p) ==
   /\ stack[p] # <<>> /\ Top(p).pc = "spublish"
   /\ LET f == Top(p) IN
      /\ cmap' = [cmap EXCEPT ![f.side] = f.snap \cup {f.t}]      \* entries added by others since the load are dropped (recompiled later)
-     /\ stack' = SetTop(p, [f EXCEPT !.pc = "return"])
-  /\ Gate(p)
+     /\ stack' = SetTop(p, [f EXCEPT !.pc = "filter", !.hit = TRUE])        \* the slow path filters after it has published
+  /\ Gate(p, "publish", Top(p).t)
   /\ UNCHANGED <<slot, plan, rw, hashDone, results, plan0>>
 
 Return(p) ==
@@ -221,6 +223,18 @@ Next == (\E p \in Procs : Step(p)) \/ Done
 Spec == Init /\ [][Next]_vars
 FairSpec == Spec /\ \A p \in Procs : WF_vars(Step(p))
 
+(* Schedule generation.  The hooks of the real code sit at the steps Guard [lookup], Compile [miss] and           *)
+(* Publish / SPublish [publish]; a goroutine released at a hook runs on to its next hook (or blocks on the lock).  *)
+(* GenSpec therefore gives the steps between hooks priority: its behaviours are exactly the interleavings a        *)
+(* scheduler acting at the hooks can produce.  Each hook precedes one group of shared accesses (slot read; the     *)
+(* private compilation; slot / map write), so every order of the shared accesses is still generated.               *)
+GateStep(p) == Guard(p) \/ Compile(p) \/ Publish(p) \/ SPublish(p)
+InternalStep(p) == Start(p) \/ RLock(p) \/ Read(p) \/ Filter(p) \/ Filtered(p) \/ RUnlock(p) \/ WLock(p) \/ Store(p) \/ SLoad(p) \/ Return(p)
+GenNext == \/ \E p \in Procs : InternalStep(p)
+           \/ (~ \E p \in Procs : ENABLED InternalStep(p)) /\ \E p \in Procs : GateStep(p)
+           \/ Done
+GenSpec == Init /\ [][GenNext]_vars
+
 -----------------------------------------------------------------------------
 (* each call returns the program of its own type, complete *)
 OwnProgram == \A r \in results : r.got = r.req
@@ -234,5 +248,5 @@ NoLockLeak == \A p \in Procs : stack[p] = <<>> => \A s \in Sides : rw[s].readers
 (* every call terminates (checked under FairSpec) *)
 Terminates == <>Finished
 
-Export == Finished => PrintT(<<"SCHED", ToJson([plan |-> plan0, sched |-> sched])>>)
+Export == Finished => PrintT(<<"SCHED", ToJson([plan |-> plan0.calls, qwarm |-> plan0.qwarm, sched |-> sched])>>)
 =============================================================================
